@@ -130,9 +130,30 @@ def enum_graphs(seed):
             check([src], "one source")
             # second source redefines one section; through self-inherit the older definition stays reachable
             n2 = rnd.choice(names)
-            redefined = sec(n2, ((n2,) if rnd.random() < .6 else ()) + tuple(x for x in shape[n2] if rnd.random() < .5), [k for k in keys if rnd.random() < .5], with_class=rnd.random() < .3)
+            inh = [x for x in shape[n2] if rnd.random() < .6]
+            if rnd.random() < .7:
+                inh.insert(rnd.randrange(len(inh) + 1), n2)  # the older definition of the same name, at any position among the bases
+            redefined = sec(n2, tuple(inh), [k for k in keys if rnd.random() < .4], with_class=rnd.random() < .3)
             redefined = {k: ("newer:" + v if k in keys else v) for k, v in redefined.items()}
             check([src, {n2: redefined}], f"second source redefines {n2}")
+            if n2 != "s":
+                # ... and the collapsed section itself, with its older definition after / between its bases
+                inh = list(shape["s"])
+                inh.insert(rnd.randrange(len(inh) + 1), "s")
+                top = {k: ("newest:" + v if k in keys else v) for k, v in sec("s", tuple(inh), [k for k in keys if rnd.random() < .3], with_class=False).items()}
+                check([src, {"s": top}], "second source redefines s with a self-inherit among its bases")
+                check([src, {n2: redefined}, {"s": top}], "three sources")
+    # the older definition of the collapsed section has no bases of its own; the newer one lists it at every position among one or two bases
+    rnd = random.Random(seed + 4343)
+    for perm in [p for n in (2, 3) for p in itertools.permutations(("s", "b1", "b2")[:n])] + [("b1", "s"), ("b2", "b1", "s")]:
+        for _ in range(60 if thorough else 20):
+            old = {"s": sec("s", (), [k for k in keys if rnd.random() < .6], with_class=True),
+                   "b1": sec("b1", ("g1",) if rnd.random() < .3 else (), [k for k in keys if rnd.random() < .6], with_class=False),
+                   "b2": sec("b2", (), [k for k in keys if rnd.random() < .5], with_class=False), "g1": sec("g1", (), list(keys), with_class=False)}
+            new = {"s": {k: ("newer:" + v if k in keys else v) for k, v in sec("s", perm, [k for k in keys if rnd.random() < .25], with_class=False).items()}}
+            check([old, new], f"newer s inherits {list(perm)}")
+            mid = {"s": {k: ("middle:" + v if k in keys else v) for k, v in sec("s", ("s",), [k for k in keys if rnd.random() < .3], with_class=False).items()}}
+            check([old, mid, new], f"three definitions of s, the newest inherits {list(perm)}")
     # cycles, missing targets, lone self-inherit
     bad = [
         [{"s": {"class": thing, "inherit": ["s"]}}],
@@ -144,8 +165,8 @@ def enum_graphs(seed):
     ]
     for b in bad:
         check(b, "must be reported as an error")
-    return {"name": "C43.collapse.bounded_enumeration", "bound": f"8 tree shapes over <= 5 sections (two ordered parents, two levels) x {120 if thorough else 40} seeded key assignments, each with one source and with a second source redefining a section "
-            "(self-inherit through the sources); 6 cyclic / dangling graphs", "cases": cases, "failures": fails}
+    return {"name": "C43.collapse.bounded_enumeration", "bound": f"8 tree shapes over <= 5 sections (two ordered parents, two levels) x {120 if thorough else 40} seeded key assignments, each with one source, with a second source redefining a section and with further sources redefining the collapsed section "
+            "(self-inherit through the sources at any position among the bases); 6 cyclic / dangling graphs", "cases": cases, "failures": fails}
 
 
 def t_render_value(ex):
